@@ -56,3 +56,11 @@ claim("C01", "Transfer.tla states what an upload (STOR/APPE, with or without res
       note="Trusted base: TLC; the simulated network delivers exactly the bytes written (FIFO per direction); content families are finite "
            "(all 256 values once, CR/LF/NUL/IAC runs, position tags): the claim for 'any content' rests on the code not branching on "
            "byte values, which the families are designed to attack.")
+claim("C06", "Framing.tla defines the encoder (plain and listing-style multi-line replies), the decoder (RFC 959 continuation rule, "
+      "mismatching continuation code = error, resynchronisation), the round-trip property, the code-mask rule and the command split on "
+      "character sequences. Replies over 16 hostile line kinds x 1..3 lines x 2 modes x 2 codes, each followed by a second reply, are "
+      "written by the real Server.write_response, delivered under several segmentations and decoded by the real Client.parse_response "
+      "in two encodings; TLC judges every record (wire = Enc, decoded = Dec(wire), round trip), plus hand-made mismatching streams, "
+      "all code/mask pairs over a 7-symbol alphabet and Server.parse_command.", "TLC judgement of recorded encoder/decoder runs against Framing.tla",
+      note="Trusted base: TLC; texts with trailing whitespace are outside the family (the codec right-strips by design); the simulated "
+           "stream pair; one 8-bit encoding (cp1251) besides utf-8.")
